@@ -13,7 +13,8 @@
    a path is the list of its components.  Contents are an abstract type C with
      clen : length of the serialised file (os.path.getsize, len(new_file_contents))
      cmem : what process_contents reports (len for FileCache, DataFrame memory for the table cache).
-   time.time_ns() readings are inputs of the operations (arbitrary, ties allowed).
+   time.time_ns() readings are inputs of the operations (arbitrary, ties allowed); so is the item each
+   heappop returns (see pop_choice).
    No proofs in this file. *)
 From Coq Require Import ZArith List Bool.
 Import ListNotations.
@@ -136,6 +137,24 @@ Section Cache.
     | x :: r => let m := min_of x r in Some (m, remove_first m h)
     end.
 
+  (* The list is handled by heapq WITHOUT its invariant being maintained (update_file_access_time filters the
+     list and pushes without heapify), so heappop does not always return the minimum.  Which item is popped is
+     therefore an INPUT of the model: `ch` lists the names popped by the implementation, in order; when the
+     list is exhausted or names an absent item the minimum is taken.  The theorems hold for every `ch`. *)
+  Fixpoint pop_named (h : list item) (n : name) : option (item * list item) :=
+    match h with
+    | [] => None
+    | x :: r =>
+        if name_eqb (snd x) n then Some (x, r)
+        else match pop_named r n with Some (y, r') => Some (y, x :: r') | None => None end
+    end.
+
+  Definition pop_choice (h : list item) (ch : list name) : option (item * list item) * list name :=
+    match ch with
+    | n :: ch' => (match pop_named h n with Some r => Some r | None => pop_min h end, ch')
+    | [] => (pop_min h, [])
+    end.
+
   Definition heap_without (h : list item) (n : name) : list item :=
     filter (fun it => negb (name_eqb (snd it) n)) h.
 
@@ -153,30 +172,30 @@ Section Cache.
   Inductive rm_status := RMdone | RMkey | RMfuel.
 
   (* the while loop of recover_memory; `writing` are the popped items of files being written *)
-  Fixpoint rm_loop (fuel : nat) (claim : Z) (s : cache) (writing : list item) : cache * rm_status :=
+  Fixpoint rm_loop (fuel : nat) (claim : Z) (s : cache) (writing : list item) (ch : list name) : cache * rm_status :=
     match fuel with
     | O => (s, RMfuel)
     | S f =>
         if (c_mem s + claim >? c_max s) then
-          match pop_min (c_heap s) with
-          | None => (mkC (c_disk s) (c_entries s) (c_heap s ++ writing) (c_mem s) (c_max s), RMdone)
-          | Some (it, h') =>
+          match pop_choice (c_heap s) ch with
+          | (None, _) => (mkC (c_disk s) (c_entries s) (c_heap s ++ writing) (c_mem s) (c_max s), RMdone)
+          | (Some (it, h'), ch') =>
               let s1 := mkC (c_disk s) (c_entries s) h' (c_mem s) (c_max s) in
               match assoc (c_entries s) (snd it) with
               | None => (s1, RMkey)                               (* self.file_futures[oldest_file] *)
               | Some e =>
-                  if e_writing e then rm_loop f claim s1 (writing ++ [it])
-                  else rm_loop f claim (unload_ s1 (snd it)) writing
+                  if e_writing e then rm_loop f claim s1 (writing ++ [it]) ch'
+                  else rm_loop f claim (unload_ s1 (snd it)) writing ch'
               end
           end
         else (mkC (c_disk s) (c_entries s) (c_heap s ++ writing) (c_mem s) (c_max s), RMdone)
     end.
 
   (* recover_memory: Some true / Some false = return value, None = exception *)
-  Definition recover_memory (s : cache) (claim : Z) : cache * (bool + exc) :=
+  Definition recover_memory (s : cache) (claim : Z) (ch : list name) : cache * (bool + exc) :=
     if claim >? c_max s then (s, inr AssertionErr)
     else
-      match rm_loop (S (length (c_heap s))) claim s [] with
+      match rm_loop (S (length (c_heap s))) claim s [] ch with
       | (s1, RMdone) => (s1, inl (c_mem s1 + claim <=? c_max s1))
       | (s1, RMkey) => (s1, inr KeyErr)
       | (s1, RMfuel) => (s1, inr KeyErr)
@@ -187,8 +206,8 @@ Section Cache.
     mkC (c_disk s) (c_entries s) (heap_without (c_heap s) n ++ [(t, n)]) (c_mem s) (c_max s).
 
   (* update_file_futures_and_memory *)
-  Definition ufm (s : cache) (n : name) (usage t : Z) : cache * option exc :=
-    match recover_memory s usage with
+  Definition ufm (s : cache) (n : name) (usage t : Z) (ch : list name) : cache * option exc :=
+    match recover_memory s usage ch with
     | (s1, inr e) => (s1, Some e)
     | (s1, inl can_cache) =>
         match assoc (c_entries s1) n with
@@ -214,10 +233,10 @@ Section Cache.
   Definition fres_of (r : C + exc) : fres := match r with inl c => FOk c | inr e => FErr e end.
 
   (* _load_file, run by a worker *)
-  Definition load_task (s : cache) (n : name) (t : Z) : cache * (C + exc) :=
+  Definition load_task (s : cache) (n : name) (t : Z) (ch : list name) : cache * (C + exc) :=
     match lookup (c_disk s) n with
     | Some (File c) =>
-        match ufm s n (cmem c) t with
+        match ufm s n (cmem c) t ch with
         | (s1, None) => (s1, inl c)
         | (s1, Some e) => (s1, inr e)
         end
@@ -226,14 +245,14 @@ Section Cache.
     end.
 
   (* _write_file, run by a worker *)
-  Definition write_task (s : cache) (n : name) (c : C) (t : Z) : cache * (C + exc) :=
+  Definition write_task (s : cache) (n : name) (c : C) (t : Z) (ch : list name) : cache * (C + exc) :=
     match makedirs (c_disk s) (removelast n) with
     | inr e => (s, inr e)
     | inl d1 =>
         match write_disk d1 n c with
         | inr e => (mkC d1 (c_entries s) (c_heap s) (c_mem s) (c_max s), inr e)
         | inl d2 =>
-            match ufm (mkC d2 (c_entries s) (c_heap s) (c_mem s) (c_max s)) n (cmem c) t with
+            match ufm (mkC d2 (c_entries s) (c_heap s) (c_mem s) (c_max s)) n (cmem c) t ch with
             | (s1, None) => (s1, inl c)
             | (s1, Some e) => (s1, inr e)
             end
@@ -244,7 +263,7 @@ Section Cache.
     mkC (c_disk s) (aset (c_entries s) n e) (c_heap s) (c_mem s) (c_max s).
 
   (* get_file *)
-  Definition get_file (s : cache) (n : name) (t : Z) : cache * (C + exc) :=
+  Definition get_file (s : cache) (n : name) (t : Z) (ch : list name) : cache * (C + exc) :=
     match lookup (c_disk s) n with
     | None => (s, inr FileNotFound)
     | Some nd =>
@@ -254,7 +273,7 @@ Section Cache.
           match assoc (c_entries s) n with
           | None =>
               let s1 := set_entry s n (mkE false claim FPending) in
-              let '(s2, r) := load_task s1 n t in
+              let '(s2, r) := load_task s1 n t ch in
               (resolve s2 (fres_of r), r)
           | Some info =>
               (* sequentially the future is done *)
@@ -264,7 +283,7 @@ Section Cache.
     end.
 
   (* update_file; the bool is write_applied *)
-  Definition update_file (s : cache) (n : name) (c : C) (t : Z) : cache * (bool + exc) :=
+  Definition update_file (s : cache) (n : name) (c : C) (t : Z) (ch : list name) : cache * (bool + exc) :=
     let claim := clen c in
     if claim >? c_max s then (s, inr MemoryErr)
     else
@@ -275,7 +294,7 @@ Section Cache.
         end in
       if fresh then
         let s1 := set_entry (unload_ s n) n (mkE true claim FPending) in
-        let '(s2, r) := write_task s1 n c t in
+        let '(s2, r) := write_task s1 n c t ch in
         (resolve s2 (fres_of r), match r with inl _ => inl true | inr e => inr e end)
       else
         (s, match assoc (c_entries s) n with
@@ -285,8 +304,8 @@ Section Cache.
 
   (* ---- operations of a store and their results ---- *)
   Inductive op :=
-  | OSet (n : name) (c : C) (t : Z)
-  | OGet (n : name) (t : Z)
+  | OSet (n : name) (c : C) (t : Z) (ch : list name)
+  | OGet (n : name) (t : Z) (ch : list name)
   | OUnload (n : name)
   | OReopen (mx : Z).
 
@@ -295,13 +314,13 @@ Section Cache.
   (* KeyValueStorage.get / .set ; catches = the regenerated flag "get turns FileNotFoundError into :undefined" *)
   Definition kvs_step (catches : bool) (s : cache) (o : op) : cache * res :=
     match o with
-    | OSet n c t =>
-        match update_file s n c t with
+    | OSet n c t ch =>
+        match update_file s n c t ch with
         | (s1, inl _) => (s1, RSet)
         | (s1, inr e) => (s1, RErr e)
         end
-    | OGet n t =>
-        match get_file s n t with
+    | OGet n t ch =>
+        match get_file s n t ch with
         | (s1, inl c) => (s1, RVal c)
         | (s1, inr FileNotFound) => (s1, if catches then RUndef else RErr FileNotFound)
         | (s1, inr e) => (s1, RErr e)
@@ -326,9 +345,9 @@ Section Cache.
 
   Definition spec_step (s : sstate) (o : op) : sstate * res :=
     match o with
-    | OSet n c _ =>
+    | OSet n c _ _ =>
         if clen c >? s_max s then (s, RErr MemoryErr) else (mkS (aset (s_map s) n c) (s_max s), RSet)
-    | OGet n _ =>
+    | OGet n _ _ =>
         match assoc (s_map s) n with
         | Some c => (s, if clen c >? s_max s then RErr MemoryErr else RVal c)
         | None => (s, RUndef)
@@ -347,7 +366,7 @@ Section Cache.
     end.
 
   Definition op_name (o : op) : option name :=
-    match o with OSet n _ _ | OGet n _ | OUnload n => Some n | OReopen _ => None end.
+    match o with OSet n _ _ _ | OGet n _ _ | OUnload n => Some n | OReopen _ => None end.
 End Cache.
 
 Arguments File {C}.
@@ -422,8 +441,8 @@ Section Tables.
   Inductive tres := TSet | TVal (f : frame) | TUndef | TErr (e : exc) | TNone.
 
   (* PandasDataFrameCache.update (t1: clock reading of the get, t2: of the update) *)
-  Definition tbl_set (s : tcache) (n : name) (new : frame) (t1 t2 : Z) : tcache * tres :=
-    let '(s1, g) := get_file frame flen fmem dirsize s n t1 in
+  Definition tbl_set (s : tcache) (n : name) (new : frame) (t1 t2 : Z) (ch1 ch2 : list name) : tcache * tres :=
+    let '(s1, g) := get_file frame flen fmem dirsize s n t1 ch1 in
     let merged :=
       match g with
       | inl old => inl (merge_frames old new)
@@ -433,7 +452,7 @@ Section Tables.
     match merged with
     | inr e => (s1, TErr e)
     | inl df =>
-        match update_file frame flen fmem s1 n df t2 with
+        match update_file frame flen fmem s1 n df t2 ch2 with
         | (s2, inl true) => (s2, TSet)
         | (s2, inl false) => (s2, TErr KeyErr)      (* retry loop: not reachable sequentially *)
         | (s2, inr e) => (s2, TErr e)
@@ -441,8 +460,8 @@ Section Tables.
     end.
 
   (* TableStorage.get = get_dataframe(default_empty=False) *)
-  Definition tbl_get (s : tcache) (n : name) (t : Z) : tcache * tres :=
-    match get_file frame flen fmem dirsize s n t with
+  Definition tbl_get (s : tcache) (n : name) (t : Z) (ch : list name) : tcache * tres :=
+    match get_file frame flen fmem dirsize s n t ch with
     | (s1, inl f) => (s1, TVal f)
     | (s1, inr FileNotFound) => (s1, TUndef)
     | (s1, inr e) => (s1, TErr e)
